@@ -123,7 +123,27 @@ func (g *genCtx) genNumber(t *rapid.T, integer bool) *Schema {
 	return s
 }
 
+var stringFormats = []string{"uuid", "date-time", "date", "time", "byte", "ip", "uri", "duration", "int32", "int64", "uint64", "uint32", "uint16", "uint8", "int8", "int16", "uint", "int", "float32", "float64", "unix", "unix-milli", "mac", "hostname", "email", "password"}
+var integerFormats = []string{"int32", "int64", "int8", "int16", "uint8", "uint16", "uint32", "uint64", "uint", "int", "unix", "unix-seconds", "unix-milli", "unix-micro", "unix-nano"}
+var numberFormats = []string{"float", "double", "int32", "int64"}
+
+// genFormatted draws a primitive with a format keyword (no validators: formats and validators
+// interact through the same Go type, and C13 owns the text forms).
+func (g *genCtx) genFormatted(t *rapid.T) *Schema {
+	switch rapid.IntRange(0, 2).Draw(t, "fkind") {
+	case 0:
+		return &Schema{Type: "string", Format: rapid.SampledFrom(stringFormats).Draw(t, "sformat")}
+	case 1:
+		return &Schema{Type: "integer", Format: rapid.SampledFrom(integerFormats).Draw(t, "iformat")}
+	default:
+		return &Schema{Type: "number", Format: rapid.SampledFrom(numberFormats).Draw(t, "nformat")}
+	}
+}
+
 func (g *genCtx) genLeaf(t *rapid.T) *Schema {
+	if g.opt.Formats && rapid.IntRange(0, 3).Draw(t, "formatted") == 0 {
+		return g.genFormatted(t)
+	}
 	switch rapid.IntRange(0, 6).Draw(t, "leaf") {
 	case 0, 1:
 		return g.genString(t)
